@@ -281,6 +281,52 @@ pub fn produce(tier: Tier, emit: &mut dyn FnMut(Case)) {
             emit(Case { kind: "multibyte-name", msg: m, payload_kind: 0 });
         }
     }
+    // (B5) names that coincide with identifiers of the library's data model, as attribute and as member names
+    for n in STRUCTURAL_NAMES {
+        for placement in 0..3 {
+            let mut m = Msg::new(0x0101, 0x0002, 5);
+            let a = Attr { name: n.as_bytes().to_vec(), values: vec![Val::Int(3)] };
+            match placement {
+                0 => m.groups.push(Group { tag: TAG_OPERATION, attrs: vec![a, attr("x", vec![Val::Int(1)])] }),
+                1 => {
+                    m.groups.push(Group { tag: TAG_OPERATION, attrs: vec![attr("x", vec![Val::Int(1)])] });
+                    m.groups.push(Group { tag: TAG_PRINTER, attrs: vec![a] });
+                }
+                _ => m.groups.push(Group {
+                    tag: TAG_OPERATION,
+                    attrs: vec![attr("c", vec![Val::Coll(vec![(n.as_bytes().to_vec(), vec![Val::Int(1), Val::Str(T_KEYWORD, n.as_bytes().to_vec())]), (b"zz".to_vec(), vec![Val::NoValue])])])],
+                }),
+            }
+            emit(Case { kind: "structural-name", msg: m, payload_kind: 0 });
+        }
+    }
+    // (B6) every value a peer may give the two mandatory operation attributes x non-ASCII text in every text
+    // position (the content of a message must not depend on what its charset attribute says: the in-memory model is
+    // Unicode strings). Not part of the C03 space: what an independent RFC decoder makes of non-UTF-8 charsets is a
+    // question the statement of C03 does not settle.
+    for cs in CHARSETS {
+        for nl in NATURAL_LANGUAGES {
+            for first in [true, false] {
+                let mut m = Msg::new(0x0101, 0x0002, 5);
+                let texts = vec![
+                    attr("t", vec![Val::Str(T_TEXT, "B\u{fc}ro \u{20ac}".as_bytes().to_vec())]),
+                    attr("n", vec![Val::Str(T_NAME, "n\u{e4}me".as_bytes().to_vec()), Val::Str(T_KEYWORD, "k\u{e9}y".as_bytes().to_vec())]),
+                    attr("c", vec![Val::Coll(vec![("m\u{f6}".as_bytes().to_vec(), vec![Val::TextLang(b"de".to_vec(), "gr\u{fc}n".as_bytes().to_vec())])])]),
+                ];
+                let mand = vec![attr("attributes-charset", vec![Val::Str(T_CHARSET, cs.as_bytes().to_vec())]), attr("attributes-natural-language", vec![Val::Str(T_NATLANG, nl.as_bytes().to_vec())])];
+                if first {
+                    let mut attrs = mand.clone();
+                    attrs.extend(texts[..2].iter().cloned());
+                    m.groups.push(Group { tag: TAG_OPERATION, attrs });
+                    m.groups.push(Group { tag: TAG_JOB, attrs: texts[2..].to_vec() });
+                } else {
+                    m.groups.push(Group { tag: TAG_OPERATION, attrs: mand.clone() });
+                    m.groups.push(Group { tag: TAG_PRINTER, attrs: texts.clone() });
+                }
+                emit(Case { kind: "charset-variants", msg: m, payload_kind: 0 });
+            }
+        }
+    }
     // (C) permutation programs
     for m in perm_programs() {
         emit(Case {
